@@ -9,6 +9,27 @@ CHECKS = {
  "C01": ("differential testing against an independent reference evaluator (O-SPEC) over generated schema/instance pairs",
          "5/C01", "Exploration: interaction-biased schemas x schema-directed instances for 4 drafts, verdict compared with an evaluator written from the specifications and self-tested on the official suite; bounded by case count and schema size, so absence of violations is not proven.",
          "Trusted: O-SPEC (self-tested on 2164 official suite points at start-up), Python re on the generated regex subset, Fraction arithmetic; multipleOf pairs outside C09's exact sub-domain and format are not judged."),
+ "C03": ("generated-input search with a typed crash oracle over liberal accepted schemas x hostile instances x entry points, plus exhaustive small-scope enumeration of keyword/value pools",
+         "5/C03", "Exploration plus an exhaustively enumerated small scope: every keyword x 60-value pool (and consulted sibling pairs) x 40 hostile instances for 4 drafts, and random liberal/well-meant schemas with hostile instances through 4 entry points x 3 format-checker settings; only documented exception types may escape.",
+         "Schemas containing $ref are excluded (cycles / non-string $ref are outside the claim); nesting > 12 and integers > 4000 digits are not generated; hangs only through a 90 s watchdog (reported as inconclusive)."),
+ "C08": ("reference-model testing against recursive JSON equality (O-EQ) plus three-way agreement of const / enum / uniqueItems on rewrite-generated value pairs",
+         "5/C08", "Exploration: value pairs built by equality-preserving and equality-breaking rewrites at depth 0-3, arrays exercising the hash and brute-force uniqueness paths; const, enum and uniqueItems compared with O-EQ and with each other in every draft.",
+         "Trusted: Python's exact int/float comparison; O-EQ written from the JSON data model."),
+ "C09": ("reference-model testing against exact rational arithmetic (Fraction) over magnitude-class number generators, plus a complete pool product",
+         "5/C09", "Exploration plus an exhaustive 60x60 number-pool product per keyword/draft/flag: comparisons and multipleOf checked against Fraction arithmetic on the exact sub-domain the statement defines, and no exception for any finite operands.",
+         "Trusted: fractions.Fraction; the exact sub-domain predicate is written from the statement (pbt/oracle/spec.py mult_in_exact_domain); integers limited to ~2100 digits."),
+ "C13": ("differential testing of every format checker against hand-written grammar recognisers on near-miss mutations, free text and exhaustively enumerated token products",
+         "5/C13", "Exploration plus exhaustive token products (octets, hex groups, year/month/day tokens): conforms()/check() of every checker object compared with independent recognisers for ipv4, ipv6, date, email, regex; never-raises for all registered formats on arbitrary text.",
+         "regex grammar = what re.compile accepts (as the statement defines); date year 0000 and leading zeros in an IPv4 tail of IPv6 are don't-cares; idn-hostname / Draft 3 time only never-raises."),
+ "C14": ("round-trip testing: every location of generated documents encoded as RFC 6901 / RFC 3986 fragment and resolved, with identity oracle; typed-failure oracle for pointers that address nothing",
+         "5/C14", "Exploration: documents with hostile keys, every location, random optional percent-encoding, identity of the returned object; negative pointers must raise RefResolutionError; also end-to-end through $ref.",
+         "Trusted: O-PTR encoder/evaluator (pbt/oracle/pointer.py) written from RFC 6901."),
+ "C17": ("reference-model testing of ErrorTree against a dict model over error collections in permuted arrival orders",
+         "5/C17", "Exploration: error lists from generated invalid cases of all drafts in generation, reversed and drawn order; construction must not raise, every error is found along its path, iteration/membership/total_errors equal the model, clean elements index to empty trees.",
+         "One open known finding (propertyNames errors record a property name as the node instance) is recognised counterfactually and reported as KNOWN-FINDING."),
+ "C19": ("model-based scenario testing of the CLI: exit status / stdout / stderr compared with a model computed from library calls over generated file-state scenarios",
+         "5/C19", "Exploration: scenarios over schema state x ordered instance states x output mode x error format x --validator x --base-uri, run in-process (and 1/40 as a subprocess), compared unit by unit with the library's own errors.",
+         "Diagnostic wording and the particular non-zero status are not asserted."),
 }
 
 NOT_YET = "check not built yet in this revision of /verif (planned in DESIGN.md section 5)"
